@@ -86,6 +86,11 @@ Inductive eqcall :=
 Definition err_z (e : err) : Z :=
   match e with KeyError => 1 | IndexError => 2 | TypeError => 3 | ValueError => 4 end.
 
+(* `label for label in range(len(self.classdb.label_to_info)) if label not in possible_labels`
+   (forget.py since 59cdf67): every other label of the class database, in increasing order *)
+Definition other_labels (d : cdbT) (k : key) : list Z :=
+  filter (fun l => negb (mem l (fst k :: snd k))) (map Z.of_nat (seq 0 (length (ClassDB.Model.classes d)))).
+
 Section DB.
 Variable T : table.
 
@@ -271,9 +276,9 @@ Definition check (d : cdbT) (only_equiv : bool) (k : key) (r : rule) : cdbT * (b
 (* the loop over itertools.product(possible_labels, strats), flattened: one entry per
    rule object, or the KeyError of classdb.get_class(label) for an unknown label.
    comb_class_list only grows, so reading the classes of the labels up front is
-   what the loop sees.  `extra` = labels replayed after the labels of the key: none in
-   the code as it is; all other labels of the class database with the repair proposed
-   in findings/forget_foreign_parent.patch.diff *)
+   what the loop sees.  `extra` = labels replayed after the labels of the key: since fix
+   59cdf67 ALL other labels of the class database (other_labels below: the code as it is,
+   rec_getitem_all); none in the code before that fix (rec_getitem) *)
 Definition key_labels (k : key) (extra : list Z) : list Z := (fst k :: snd k) ++ extra.
 Definition cand_list (d : cdbT) (pack : list Z) (labs : list Z) : list (rule + err) :=
   flat_map (fun l =>
@@ -298,8 +303,12 @@ Fixpoint try_cands (d : cdbT) (only_equiv : bool) (k : key) (l : list (rule + er
 
 Definition rec_getitem_x (extra : list Z) (pack : list Z) (only_equiv : bool) (s : rstore_t) (d : cdbT) (k : key) : cdbT * gres :=
   if r_mem k s then try_cands d only_equiv k (cand_list d pack (key_labels k extra)) else (d, GKeyError).
-(* the code as it is *)
+(* the code BEFORE fix 59cdf67 (only the classes of the key are replayed) *)
 Definition rec_getitem := rec_getitem_x [].
+
+(* THE CODE AS IT IS (since 59cdf67): after the classes of the key, every other labelled class is replayed *)
+Definition rec_getitem_all (pack : list Z) (only_equiv : bool) (s : rstore_t) (d : cdbT) (k : key) : cdbT * gres :=
+  rec_getitem_x (other_labels d k) pack only_equiv s d k.
 
 (* ------------------------------- re-applying a strategy to the parent class *)
 (* what classdb.is_empty(c) answers in state d for a labelled class *)
@@ -361,3 +370,9 @@ Definition rec_init (d : cdbT) : dbst rstore_t := mkDB rstore_t d [] [] [] [] 0.
    connect_cycles, a function of the calls the equivalence database received *)
 Definition db_has_spec (rep : Z -> Z) (keys_r keys_e : list key) (root : Z) (iterative : bool) : option bool :=
   Tree.Model.has_specification rep (keys_r ++ keys_e) root iterative.
+
+(* decider of the pack hypothesis of C14_search_stored_rules_handed_back_x: the pack the memory-saving database
+   replays (StrategyPack.__iter__) contains every strategy the searcher applies itself - the strategies the queue
+   hands out (`pack` of Searcher/Contracts.v), the verification strategies and the symmetries *)
+Definition fpack_coversb (T : table) (pack fpack : list Z) : bool :=
+  forallb (fun q => mem q fpack) (pack ++ t_ver T ++ t_sym T).
